@@ -12,6 +12,19 @@ package main
 // (Model/ChanClose.v: connection moves, callback starts, thread steps) and replayed on the
 // extracted model, which must accept every label and predict the same channel observables at
 // every schedule point.
+//
+// Third strengthening: (a) a quarter of the worlds start as a pure CLIENT channel (no
+// ListenAndServe; the connections are outbound, to raw peers that listen), and Channel.Serve /
+// Channel.ListenAndServe are operations of every world, issued at random points of the script
+// (before Close, after Close, with Close parked after its locked region, repeatedly); they are
+// threads of the model (PSrv / PLs1), their returned error is the thread's outcome.  Oracle, from
+// the statement: the state never moves backwards, a Serve on a channel that is closing or closed
+// fails, one on a listening channel fails with errAlreadyListening, one on a fresh client
+// succeeds; when a Serve succeeded after Close a raw peer then dials the listener and sends a
+// call, which must not be served.  (b) chan.closeStateChange.enter is one of the points an
+// operation can be parked at, and a directed schedule forces "the connection closes on its own |
+// its last callback is parked at enter (closed, still tracked) | Channel.Close | resume": Close
+// defers to the callback, the callback must finish the close.
 
 import (
 	"fmt"
@@ -50,6 +63,7 @@ type chActor struct {
 	remaining []int
 	unlocked  bool
 	cur       *chCb
+	wasClosed bool // Close actor: the channel was already Closed when Close was called
 	park      *c07Park
 	done      chan struct{}
 	finished  bool
@@ -74,6 +88,12 @@ type chWorld struct {
 	closeIssued bool
 	lateSeen    map[uint32]bool
 	outc        []func() int64 // expected outcome of every model thread, in thread order
+	client      bool           // the world started as a client channel (no ListenAndServe)
+	lisTried    bool           // ListenAndServe / Serve was called at least once
+	nserve      int
+	stuckSeen   bool
+	servedLate  string // address of a listener that a Serve call made AFTER Close got the channel to serve
+	hs          *c07Handlers
 }
 
 func (w *chWorld) fail(v string) { w.verdicts = append(w.verdicts, v) }
@@ -201,6 +221,9 @@ func (w *chWorld) translate(evs []c07Event, a *chActor) (autoRelease bool) {
 			w.obs = append(w.obs, 1)
 			a.remaining = nil
 			for i := range w.conns {
+				if a.wasClosed { // Close returned early from its locked region: no connection is closed by it
+					break
+				}
 				if 3+2*i+1 < len(e.Snap) && e.Snap[3+2*i+1] == 1 {
 					a.remaining = append(a.remaining, i)
 				}
@@ -227,6 +250,13 @@ func (w *chWorld) translate(evs []c07Event, a *chActor) (autoRelease bool) {
 			a.cur = &chCb{tid: w.nthreads, conn: c}
 			w.nthreads++
 			w.outc = append(w.outc, func() int64 { return 3 })
+			w.observe(e.Snap)
+		case ptRmLock:
+			if a.cur == nil {
+				continue
+			}
+			w.emit(6, int64(a.cur.tid), 1<<5)
+			w.obs = append(w.obs, 5)
 			w.observe(e.Snap)
 		case ptCbRead:
 			if a.cur == nil {
@@ -344,6 +374,7 @@ func armSet(rng *rand.Rand, p float64, names ...string) []string {
 func (w *chWorld) opClose(armed []string) bool {
 	w.emit(3, 0, 0)
 	a := w.newActor("close", w.nthreads)
+	a.wasClosed = w.ch.State() == 5
 	w.nthreads++
 	w.outc = append(w.outc, func() int64 { return 1 })
 	w.closeIssued = true
@@ -415,6 +446,136 @@ func (w *chWorld) opConnClose(c *chConn, armed []string) bool {
 	return w.run(a, armed, func() { go func() { c.conn.Close(); close(a.done) }() })
 }
 
+// opServe calls Channel.Serve (on a fresh loopback listener) or Channel.ListenAndServe.  Nothing else
+// runs during the call (the other operations are parked or finished), so the state read before the
+// call is the state the call finds.  Model: a new thread PSrv / PLs1, run to its end.
+func (w *chWorld) opServe(las bool) bool {
+	before := int(w.ch.State())
+	var err error
+	addr := ""
+	if las {
+		// a concrete free port, so that the address can be probed when the call is refused
+		l0, lerr := net.Listen("tcp", "127.0.0.1:0")
+		if lerr != nil {
+			w.infeasible = true
+			return false
+		}
+		addr = l0.Addr().String()
+		l0.Close()
+		err = w.ch.ListenAndServe(addr)
+	} else {
+		l, lerr := net.Listen("tcp", "127.0.0.1:0")
+		if lerr != nil {
+			w.infeasible = true
+			return false
+		}
+		addr = l.Addr().String()
+		if err = w.ch.Serve(l); err != nil {
+			l.Close()
+		}
+	}
+	kind := tchannel.VerifC07ServeErrKind(err)
+	if kind == 9 {
+		w.infeasible = true
+		return false
+	}
+	w.nserve++
+	if las {
+		w.emit(10, 0, 0)
+	} else {
+		w.emit(9, 0, 0)
+	}
+	tid := w.nthreads
+	w.nthreads++
+	w.emit(6, int64(tid), 0)
+	w.obs = append(w.obs, 0)
+	out := int64(8 + kind)
+	w.outc = append(w.outc, func() int64 { return out })
+	name := "Serve"
+	if las {
+		name = "ListenAndServe"
+	}
+	// the statement: only a channel that is neither listening nor closing can start to serve
+	switch {
+	case before >= 3 && kind == 0:
+		w.fail(fmt.Sprintf("%s on a channel in state %d (Close was called) returned nil: the channel serves again, state is now %d", name, before, w.ch.State()))
+		w.servedLate = addr
+	case before == 2 && kind != 1:
+		w.fail(fmt.Sprintf("%s on a listening channel returned %v, want errAlreadyListening", name, err))
+	case before == 1 && !w.lisTried && kind != 0:
+		w.fail(fmt.Sprintf("%s on a fresh client channel failed: %v", name, err))
+	case kind == 0 && w.ch.State() < 2:
+		w.fail(fmt.Sprintf("%s returned nil but the channel state is %d", name, w.ch.State()))
+	}
+	w.lisTried = true
+	if las && kind != 0 && before >= 3 {
+		w.probeRefusedListen(addr, before, err)
+	}
+	w.observe(w.snap())
+	return true
+}
+
+// probeRefusedListen: ListenAndServe(addr) was refused on a channel that is closing or closed.  A peer
+// that dials addr afterwards must be refused too (clause (b): not served, not silently dropped);
+// if the socket ListenAndServe opened is still bound, the peer gets a TCP connection that nobody
+// accepts and its init req is never answered.  Alarm only when the address cannot be bound again,
+// a dial succeeds and the init req stays unanswered for 300 ms, three times in a row.
+func (w *chWorld) probeRefusedListen(addr string, before int, lerr error) {
+	for try := 0; try < 3; try++ {
+		if l2, err := net.Listen("tcp", addr); err == nil {
+			l2.Close()
+			return
+		}
+		sock, err := net.DialTimeout("tcp", addr, 300*time.Millisecond)
+		if err != nil {
+			return
+		}
+		herr := writeRawFrame(sock, 0x01, 1, rawInitPayload(2, defaultInitParams))
+		if herr == nil {
+			_, herr = readRawFrame(sock, 300*time.Millisecond)
+		}
+		sock.Close()
+		if herr == nil {
+			return // somebody answers there (not this channel's business)
+		}
+	}
+	w.fail(fmt.Sprintf("[c07:listen-refused-leaks-listener] ListenAndServe(%q) on a channel in state %d returned %q but left the address bound: a peer that dials it gets a TCP connection and its init req is never answered (3/3)", "127.0.0.1:<p>", before, lerr))
+}
+
+// probeLate: a Serve call made after Close succeeded.  A raw peer connects to that listener and
+// sends a call: whatever the channel does with it, it must not serve it (clause (b)).
+func (w *chWorld) probeLate() {
+	sock, err := net.DialTimeout("tcp", w.servedLate, 500*time.Millisecond)
+	if err != nil {
+		return
+	}
+	defer sock.Close()
+	sock.SetDeadline(time.Now().Add(time.Second))
+	if _, err := rawClientHandshake(sock); err != nil {
+		return
+	}
+	sock.SetDeadline(time.Time{})
+	p := newC07Peer(sock)
+	if p.sendCallReq(77, 2000) != nil {
+		return
+	}
+	deadline := time.Now().Add(500 * time.Millisecond)
+	for time.Now().Before(deadline) {
+		if p.gotRes(77) {
+			w.fail(fmt.Sprintf("a call that arrived after Close (on the listener given to the late Serve) was served: call res received, channel state %d", w.ch.State()))
+			return
+		}
+		if len(p.errFrames()) > 0 {
+			return
+		}
+		select {
+		case <-p.eof:
+			return
+		case <-time.After(2 * time.Millisecond):
+		}
+	}
+}
+
 // opLateHandshake completes the handshake of a socket that was accepted before Close: the channel
 // must refuse to track the new connection and close it.
 func (w *chWorld) opLateHandshake(armed []string) bool {
@@ -461,20 +622,31 @@ func (w *chWorld) parkedActors() []*chActor {
 	return out
 }
 
-func newChWorld(rng *rand.Rand, nconns, npre int) (*chWorld, error) {
-	w := &chWorld{byID: map[uint32]*chConn{}, lateSeen: map[uint32]bool{}}
-	ch, err := c07NewChannel("svc", true, nil)
+func newChWorld(rng *rand.Rand, nconns, npre int, client bool) (*chWorld, error) {
+	w := &chWorld{byID: map[uint32]*chConn{}, lateSeen: map[uint32]bool{}, client: client}
+	w.hs = &c07Handlers{m: map[uint32][]*c07Handler{}}
+	ch, err := c07NewChannel("svc", true, w.hs)
 	if err != nil {
 		return nil, err
 	}
-	if err := ch.ListenAndServe("127.0.0.1:0"); err != nil {
-		return nil, err
-	}
 	w.ch = ch
-	w.emit(0, 0, 0)
+	if !client {
+		if err := ch.ListenAndServe("127.0.0.1:0"); err != nil {
+			return nil, err
+		}
+		w.emit(0, 0, 0)
+		w.lisTried = true
+	}
 	known := map[uint32]bool{}
 	for i := 0; i < nconns; i++ {
-		peer, conn, err := c07Dial(ch, known)
+		var peer *c07Peer
+		var conn *tchannel.Connection
+		var err error
+		if client {
+			peer, conn, err = c07xDialOut(ch, known)
+		} else {
+			peer, conn, err = c07Dial(ch, known)
+		}
 		if err != nil {
 			ch.Close()
 			return nil, err
@@ -489,7 +661,7 @@ func newChWorld(rng *rand.Rand, nconns, npre int) (*chWorld, error) {
 		w.nthreads++
 		w.outc = append(w.outc, func() int64 { return 4 })
 	}
-	for i := 0; i < npre; i++ {
+	for i := 0; i < npre && !client; i++ {
 		sock, err := net.DialTimeout("tcp", ch.PeerInfo().HostPort, 2*time.Second)
 		if err != nil {
 			ch.Close()
@@ -497,7 +669,7 @@ func newChWorld(rng *rand.Rand, nconns, npre int) (*chWorld, error) {
 		}
 		w.pre = append(w.pre, sock)
 	}
-	if npre > 0 {
+	if npre > 0 && !client {
 		time.Sleep(2 * time.Millisecond) // let the accept loop take the sockets before Close shuts the listener
 	}
 	w.ctl = newC07Ctl()
@@ -548,9 +720,26 @@ func (w *chWorld) step(rng *rand.Rand, ncloses *int, pPark float64) (string, boo
 		f    func() bool
 	}
 	var cs []cand
-	arm := func() []string { return armSet(rng, pPark, ptClUnlock, ptCbRead, ptCbMin) }
+	arm := func() []string {
+		a := armSet(rng, pPark, ptClUnlock, ptCbRead, ptCbMin)
+		if rng.Float64() < pPark/2 {
+			a = append(a, ptCbEnter)
+		}
+		if rng.Float64() < pPark/2 {
+			a = append(a, ptRmLock)
+		}
+		return a
+	}
 	if *ncloses < 3 {
 		cs = append(cs, cand{"Close", 6, func() bool { *ncloses++; return w.opClose(arm()) }})
+	}
+	if w.nserve < 3 {
+		wt := 1
+		if w.client {
+			wt = 3
+		}
+		cs = append(cs, cand{"serve", wt, func() bool { return w.opServe(false) }})
+		cs = append(cs, cand{"listen-and-serve", wt, func() bool { return w.opServe(true) }})
 	}
 	for _, c := range w.liveConns() {
 		c := c
@@ -599,6 +788,39 @@ func (w *chWorld) step(rng *rand.Rand, ncloses *int, pPark float64) (string, boo
 	return "", true
 }
 
+// checkReached is clause (d) read off the implementation at a quiescent moment: Close was called,
+// no operation is parked or running, every connection is closed => the channel is Closed and has
+// signalled it.  Callbacks of the connections' own goroutines may still be returning when the
+// operation that caused them is over, so the channel gets 300 ms to get there.
+func (w *chWorld) checkReached() {
+	if !w.closeIssued || w.stuckSeen || len(w.parkedActors()) > 0 {
+		return
+	}
+	for _, c := range w.conns {
+		if c.conn != nil && tchannel.VerifC07State(c.conn) != 4 {
+			return
+		}
+	}
+	var s []int64
+	deadline := time.Now().Add(300 * time.Millisecond)
+	for {
+		s = w.snap()
+		if s[0] == 5 && s[1] == 1 {
+			return
+		}
+		if time.Now().After(deadline) {
+			break
+		}
+		time.Sleep(500 * time.Microsecond)
+	}
+	w.stuckSeen = true
+	tag := ""
+	if s[0] == 4 && s[2] == 0 {
+		tag = "[c07:lost-closed-transition] "
+	}
+	w.fail(fmt.Sprintf(tag+"Close was called, every connection is closed and every callback has returned, but the channel is in state %d (ClosedChan closed: %v, %d connection(s) tracked)", s[0], s[1] == 1, s[2]))
+}
+
 func (w *chWorld) finish(rng *rand.Rand, complete bool) bool {
 	for {
 		ps := w.parkedActors()
@@ -643,22 +865,9 @@ func (w *chWorld) finish(rng *rand.Rand, complete bool) bool {
 			}
 		}
 	}
-	s := w.snap()
 	// reaches closed: Close issued, every connection closed, nothing running => Closed, signalled
+	w.checkReached()
 	if w.closeIssued {
-		all := true
-		for _, c := range w.conns {
-			if c.conn != nil && tchannel.VerifC07State(c.conn) != 4 {
-				all = false
-			}
-		}
-		if all && (s[0] != 5 || s[1] != 1) {
-			tag := ""
-			if s[0] == 4 && s[2] == 0 {
-				tag = "[c07:lost-closed-transition] "
-			}
-			w.fail(fmt.Sprintf(tag+"Close was called, every connection is closed and every callback has returned, but the channel is in state %d (ClosedChan closed: %v, %d connection(s) tracked)", s[0], s[1] == 1, s[2]))
-		}
 		// new outbound connections fail locally
 		ctx, cancel := context.WithTimeout(context.Background(), time.Second)
 		_, err := w.ch.Connect(ctx, "127.0.0.1:1")
@@ -666,6 +875,9 @@ func (w *chWorld) finish(rng *rand.Rand, complete bool) bool {
 		if tchannel.VerifC07ErrKind(err) != 4 {
 			w.fail(fmt.Sprintf("Connect on a channel after Close returned %v, want the local invalid-state error", err))
 		}
+	}
+	if w.servedLate != "" {
+		w.probeLate()
 	}
 	return true
 }
@@ -678,9 +890,16 @@ func engineChanClose(rng *rand.Rand, n int, tier string, o *Out) {
 		}
 		nconns := 1 + rng.Intn(3)
 		npre := rng.Intn(2)
-		directed := rng.Intn(6)
+		directed := rng.Intn(9)
+		client := rng.Intn(4) == 0
 		if directed == 1 && rng.Intn(2) == 0 {
 			nconns = 1 // the lost-transition race needs every other connection out of the way
+		}
+		if directed == 2 && rng.Intn(3) != 0 {
+			nconns = 1 // the connection that closes on its own is the last one the channel tracks
+		}
+		if directed == 3 {
+			client = true
 		}
 		steps := 3 + rng.Intn(8)
 		pPark := []float64{0.0, 0.4, 0.8}[rng.Intn(3)]
@@ -688,7 +907,7 @@ func engineChanClose(rng *rand.Rand, n int, tier string, o *Out) {
 		if tier == "thorough" {
 			steps += rng.Intn(10)
 		}
-		w, err := newChWorld(rng, nconns, npre)
+		w, err := newChWorld(rng, nconns, npre, client)
 		if err != nil {
 			o.Oracle("chanclose", fmt.Sprintf("h%d", c), false, "setup", "harness: "+err.Error())
 			continue
@@ -698,6 +917,9 @@ func engineChanClose(rng *rand.Rand, n int, tier string, o *Out) {
 		ncloses := 0
 		// some in-flight work first
 		for _, cn := range w.conns {
+			if directed == 2 {
+				break // the connections of this schedule are idle: they close as soon as they are told to
+			}
 			for k := rng.Intn(3); k > 0; k-- {
 				if rng.Intn(2) == 0 {
 					w.opRelayAdmit(cn)
@@ -748,11 +970,65 @@ func engineChanClose(rng *rand.Rand, n int, tier string, o *Out) {
 				// ... the first callback applies its update, then the second one
 				ok = ok && w.run(closer, nil, nil)
 			}
+		case 2: // directed: a connection closes on its own; Close lands while its LAST callback is at "enter"
+			labels = append(labels, "D:conn-closes|cb-enter(closed,tracked)|close|resume")
+			// every connection but the last one closes and is forgotten first
+			for _, cn := range w.conns[1:] {
+				ok = ok && w.opConnError(cn, nil)
+			}
+			cn := w.conns[0]
+			// the park: at the entry of the callback, or inside it between the decision to remove the
+			// connection and the removal (any read of the channel state made before the removal is stale)
+			at := []string{ptCbEnter, ptRmLock}[rng.Intn(2)]
+			if rng.Intn(2) == 0 {
+				ok = ok && w.opConnError(cn, []string{at})
+			} else {
+				ok = ok && w.opConnClose(cn, []string{at})
+			}
+			// the callbacks of the earlier state changes run to their end; the one that reports Closed stays parked
+			for guard := 0; ok && guard < 4 && len(w.parkedActors()) == 1 && tchannel.VerifC07State(cn.conn) != 4; guard++ {
+				ok = w.run(w.parkedActors()[0], []string{at}, nil)
+			}
+			if ok && len(w.parkedActors()) == 1 && tchannel.VerifC07State(cn.conn) == 4 {
+				cb := w.parkedActors()[0]
+				o.Hist("forced=close-at-" + at)
+				if rng.Intn(3) == 0 { // Close itself stops after its locked region, the callback overtakes it
+					ok = w.opClose([]string{ptClUnlock})
+				} else {
+					ok = w.opClose(nil)
+				}
+				ncloses++
+				ok = ok && w.run(cb, nil, nil)
+			}
+		case 3: // directed: a client channel with work in flight is closed, then told to serve
+			labels = append(labels, "D:client|in-flight|close|serve")
+			cn := w.conns[0]
+			if len(cn.out) == 0 && cn.pending == 0 {
+				w.opBeginCall(cn)
+			}
+			if rng.Intn(3) == 0 {
+				ok = w.opClose([]string{ptClUnlock})
+			} else {
+				ok = w.opClose(nil)
+			}
+			ncloses++
+			for k := 1 + rng.Intn(2); ok && k > 0; k-- {
+				ok = w.opServe(rng.Intn(2) == 0)
+			}
+			if ok {
+				o.Hist(fmt.Sprintf("forced=serve-in-state-%d", w.chStates[len(w.chStates)-1]))
+			}
+		}
+		if ok && !w.infeasible {
+			w.checkReached()
 		}
 		for i := 0; ok && i < steps && !w.infeasible; i++ {
 			var l string
 			l, ok = w.step(rng, &ncloses, pPark)
 			labels = append(labels, l)
+			if ok && !w.infeasible {
+				w.checkReached()
+			}
 		}
 		if ok && !w.infeasible {
 			ok = w.finish(rng, complete)
@@ -790,6 +1066,11 @@ func engineChanClose(rng *rand.Rand, n int, tier string, o *Out) {
 			o.Hist("op=" + l)
 		}
 		o.Hist(fmt.Sprintf("conns=%d", nconns))
+		if client {
+			o.Hist("world=client")
+		} else {
+			o.Hist("world=listening")
+		}
 		o.Hist(fmt.Sprintf("final-chan-state=%d", w.chStates[len(w.chStates)-1]))
 		if c < 3 {
 			o.Sample(map[string]interface{}{"sub": "chanclose", "ops": labels, "conns": nconns, "chan_states": w.chStates})
@@ -800,4 +1081,50 @@ func engineChanClose(rng *rand.Rand, n int, tier string, o *Out) {
 	if (infeasible*5 > n && n >= 10) || infeasible >= 12 {
 		o.Oracle("chanclose", "infeasible", false, "infeasible", fmt.Sprintf("harness: %d of %d schedules could not be followed by the implementation", infeasible, n))
 	}
+}
+
+// c07xDialOut makes ch connect to a raw peer that listens on loopback and waits until ch tracks
+// the new (outbound) connection.
+func c07xDialOut(ch *tchannel.Channel, known map[uint32]bool) (*c07Peer, *tchannel.Connection, error) {
+	l, err := net.Listen("tcp", "127.0.0.1:0")
+	if err != nil {
+		return nil, nil, err
+	}
+	defer l.Close()
+	type acc struct {
+		c   net.Conn
+		err error
+	}
+	accC := make(chan acc, 1)
+	go func() {
+		c, err := l.Accept()
+		if err == nil {
+			if _, _, err = rawServerHandshake(c); err != nil {
+				c.Close()
+			}
+		}
+		accC <- acc{c, err}
+	}()
+	ctx, cancel := context.WithTimeout(context.Background(), 2*time.Second)
+	defer cancel()
+	conn, err := ch.Connect(ctx, l.Addr().String())
+	if err != nil {
+		return nil, nil, err
+	}
+	a := <-accC
+	if a.err != nil {
+		return nil, nil, a.err
+	}
+	deadline := time.Now().Add(2 * time.Second)
+	for time.Now().Before(deadline) {
+		for _, c := range tchannel.VerifC07Conns(ch) {
+			if c == conn {
+				known[tchannel.VerifC07ConnID(c)] = true
+				return newC07Peer(a.c), conn, nil
+			}
+		}
+		time.Sleep(200 * time.Microsecond)
+	}
+	a.c.Close()
+	return nil, nil, fmt.Errorf("outbound connection not tracked by the channel")
 }
